@@ -1,26 +1,39 @@
 """W8 (C07/C18): the null-check structure of every `extern "C"` entry point, regenerated into Rio.Consts.
 
 For each `pub [unsafe] extern "C" fn` of src/{action,http,api}/ffi.rs, src/filter/buffer.rs and src/callback_log.rs
-(and the two helpers every pointer goes through, `c_char_to_str` and `header_map_to_http_headers`) the plugin emits
+and for the four helpers every pointer goes through (`c_char_to_str`, `header_map_to_http_headers`, `Buffer::to_vec`,
+`Buffer::into_vec`) the plugin emits
 
-    (name, number of nullable parameters, [(event, parameter index), ...])      in source order
+    (name, nullable parameters, [(event code, parameter index), ...])      in source order
 
-  guard p      `if p.is_null() { … return … }`                      -- leaves the function when p is null
-  deref p      `&*p` / `&mut *p` / `Box::from_raw(p)` / `CStr::from_ptr(p)`   -- undefined behaviour if p is null
-  derefElse p  the same inside the `else` branch of `if p.is_null() { … } else { … }`  -- runs only when p is non-null
-               (also `match c_char_to_str(p) { None => return …`: the helper answers None for a null pointer)
-  helper p     p is handed to a null-safe helper (`c_char_to_str`, `header_map_to_http_headers`, `Buffer::into_vec`,
-               `Buffer::duplicate`) or returned / stored as a value without being dereferenced
+  0 guard p      a TOP-LEVEL statement of the function body (brace depth 1, not nested under any other condition)
+                 `if p.is_null() [|| more] { …; return <expr>; }` whose block ENDS in an unconditional `return`
+                 (no `if` / `match` / loop inside the block), or the top-level statement
+                 `[let x =] match c_char_to_str(p)[…] { None => return <expr>, … }` (the helper answers None for NULL)
+  1 deref p      `&*p` / `&mut *p` / `Box::from_raw(p)` / `CStr::from_ptr(p)` / `from_raw_parts[_mut](p, …)`
+  2 derefElse p  a dereference inside the `else` block of `if p.is_null() { … } else { … }`  (runs only when p is non-null)
+  3 helper p     p is handed to a null-safe helper (`c_char_to_str`, `header_map_to_http_headers`, `Buffer::into_vec`,
+                 `Buffer::duplicate`) or returned / copied as a value without being dereferenced
 
-Nullable parameters are raw pointers and `Buffer` values (whose `data` may be null).  The extraction fails closed:
-every textual occurrence of a nullable parameter in the body must be one of the recognised forms.
-`Rio.C07.null_patterns` then proves by `decide` that no entry point dereferences a null pointer under any of the
-2^n null patterns — removing a null check from the source changes this table and breaks that proof.
+Events are ordered by text position; because a guard is a top-level statement ending in an unconditional return, text
+order is control-flow order for it: `Rio.C07.null_patterns` (`decide` on the table) fails when a dereference of p
+precedes its guard.  The extraction FAILS CLOSED (exit 1, the tie is broken) when
+  * an `if p.is_null()` is nested under another condition, or its block does not end in an unconditional return and has
+    no `else` (a weakened check), or contains control flow before the return;
+  * a nullable parameter occurs in a form that is none of the above;
+  * a built-in self-test (negative samples: nested check, conditional return, check inside another `if`) is accepted.
+`header_map_to_http_headers` walks a list: its entry is derived from the shape
+`let mut current = header_map; while !current.is_null() { … &*current … }` with every dereference inside the loop body.
+`ffiNullTableSize` is the number of entries (so that texts need not repeat a number).
 """
 import re
 
 CODE = {"guard": 0, "deref": 1, "derefElse": 2, "helper": 3}
 FILES = ["src/action/ffi.rs", "src/http/ffi.rs", "src/api/ffi.rs", "src/filter/buffer.rs", "src/callback_log.rs"]
+
+
+class Reject(Exception):
+    pass
 
 
 def strip_comments(src):
@@ -39,6 +52,17 @@ def match_brace(text, i):
                 return i
         i += 1
     return -1
+
+
+def depth_at(body, pos):
+    """brace depth of position pos inside `body` (body starts with the `{` of the function: depth 1 = top level)"""
+    d = 0
+    for ch in body[:pos]:
+        if ch == "{":
+            d += 1
+        elif ch == "}":
+            d -= 1
+    return d
 
 
 def split_params(sig):
@@ -64,121 +88,175 @@ def split_params(sig):
     return res
 
 
-def analyse(name, params, body, fail):
-    nullable = [n for (n, ty) in params if ty.startswith("*const") or ty.startswith("*mut") or ty == "Buffer"]
-    events = []  # (pos, kind, index)
+def ends_in_unconditional_return(block):
+    """the block (text between the braces) is a sequence of simple statements whose last one is `return …;`"""
+    if re.search(r"\b(if|match|while|for|loop)\b", block):
+        return False
+    stmts = [x.strip() for x in block.strip().rstrip(";").split(";") if x.strip()]
+    return bool(stmts) and re.match(r"return\b", stmts[-1]) is not None
+
+
+DEREFS = [r"&\s*\*\s*({P})\b", r"&mut\s+\*\s*({P})\b", r"Box::from_raw\(\s*({P})\s*\)", r"CStr::from_ptr\(\s*({P})\s*\)",
+          r"from_raw_parts(?:_mut)?\(\s*({P})\s*,"]
+HELPERS = [r"(?<!match )(?<!match  )c_char_to_str\(\s*({P})\s*\)", r"header_map_to_http_headers\(\s*({P})\s*\)", r"\b({P})\.into_vec\(\)",
+           r"\b({P})\.duplicate\(\)", r"\breturn\s+({P})\s*;", r"let\s+mut\s+current\s*=\s*({P})\s*;"]
+
+
+def analyse(name, nullable, body):
+    """body: text of the function from its opening brace.  -> events [(kind, index)] in source order; raises Reject."""
+    events = []
     accounted = {n: 0 for n in nullable}
-    protected = {n: [] for n in nullable}  # else-branch spans
-    for m in re.finditer(r"\bif\s+(\w+)\.is_null\(\)\s*\{", body):
+    protected = {n: [] for n in nullable}
+    P = "|".join(re.escape(n) for n in nullable) or "(?!x)x"
+    for m in re.finditer(r"\bif\s+(" + P + r")\.is_null\(\)\s*((?:\|\|[^{]*)?)\{", body):
         p = m.group(1)
-        if p not in nullable:
-            continue
         accounted[p] += 1
+        if "&&" in m.group(2):
+            raise Reject(f"{name}: the null check of `{p}` is weakened by `&&`")
         end = match_brace(body, m.end() - 1)
         block = body[m.end():end]
-        rest = body[end + 1:]
-        m2 = re.match(r"\s*else\s*\{", rest)
+        m2 = re.match(r"\s*else\s*\{", body[end + 1:])
+        # `let x = if p.is_null() { A } else { B };` is an expression at top level too
+        if depth_at(body, m.start()) != 1:
+            raise Reject(f"{name}: `if {p}.is_null()` is nested under another block (depth {depth_at(body, m.start())}): not a dominating check")
         if m2:
             e_start = end + 1 + m2.end() - 1
             protected[p].append((e_start, match_brace(body, e_start)))
             events.append((m.start(), "helper", nullable.index(p)))
-        elif re.search(r"\breturn\b", block):
+        elif ends_in_unconditional_return(block):
             events.append((m.start(), "guard", nullable.index(p)))
         else:
-            fail(f"{name}: `if {p}.is_null()` neither returns nor has an else branch")
-    deref_pats = [r"&\s*\*\s*(\w+)\b", r"&mut\s+\*\s*(\w+)\b", r"Box::from_raw\(\s*(\w+)\s*\)", r"CStr::from_ptr\(\s*(\w+)\s*\)"]
-    for pat in deref_pats:
-        for m in re.finditer(pat, body):
+            raise Reject(f"{name}: the block of `if {p}.is_null()` does not end in an unconditional `return` (or contains control flow) and has no else branch")
+    for m in re.finditer(r"match\s+c_char_to_str\(\s*(" + P + r")\s*\)[^{;]*\{\s*None\s*=>\s*return\b[^,{}]*,", body):
+        p = m.group(1)
+        accounted[p] += 1
+        if depth_at(body, m.start()) != 1:
+            raise Reject(f"{name}: `match c_char_to_str({p})` is nested under another block")
+        events.append((m.start(), "guard", nullable.index(p)))
+    for pat in DEREFS:
+        for m in re.finditer(pat.replace("{P}", P), body):
             p = m.group(1)
-            if p not in nullable:
-                continue
             accounted[p] += 1
             inside = any(s <= m.start() <= e for (s, e) in protected[p])
             events.append((m.start(), "derefElse" if inside else "deref", nullable.index(p)))
-    # `match c_char_to_str(p)… { None => return …` leaves the function when p is null (or not UTF-8): a guard
-    guard_spans = []
-    for m in re.finditer(r"match\s+c_char_to_str\(\s*(\w+)\s*\)[^{;]*\{\s*None\s*=>\s*return\b", body):
-        p = m.group(1)
-        if p not in nullable:
-            continue
-        accounted[p] += 1
-        guard_spans.append(m.start())
-        events.append((m.start(), "guard", nullable.index(p)))
-    helper_pats = [r"(?<!match )(?<!match  )c_char_to_str\(\s*(\w+)\s*\)", r"header_map_to_http_headers\(\s*(\w+)\s*\)", r"\b(\w+)\.into_vec\(\)", r"\b(\w+)\.duplicate\(\)",
-                   r"\breturn\s+(\w+)\s*;", r"let\s+mut\s+current\s*=\s*(\w+)\s*;"]
-    for pat in helper_pats:
-        for m in re.finditer(pat, body):
+    for pat in HELPERS:
+        for m in re.finditer(pat.replace("{P}", P), body):
             p = m.group(1)
-            if p not in nullable:
-                continue
             accounted[p] += 1
             events.append((m.start(), "helper", nullable.index(p)))
     for p in nullable:
         # a match arm `Some(p) => p` re-binds the name (json_deserialize calls its parameter `str`): two non-uses
         accounted[p] += 2 * len(re.findall(r"Some\(\s*" + re.escape(p) + r"\s*\)\s*=>\s*" + re.escape(p) + r"\b", body))
-        total = len(re.findall(r"\b" + re.escape(p) + r"\b", body))
+        total = len(re.findall(r"(?<![\w.])" + re.escape(p) + r"\b", body))
         if total != accounted[p]:
-            fail(f"{name}: {total - accounted[p]} unrecognised use(s) of the nullable parameter `{p}` (the extractor only knows is_null checks, &*p, &mut *p, Box::from_raw, CStr::from_ptr, the null-safe helpers and `return p`)")
+            raise Reject(f"{name}: {total - accounted[p]} unrecognised use(s) of the nullable parameter `{p}`")
     events.sort()
-    return nullable, [(k, i) for (_, k, i) in events]
+    return [(k, i) for (_, k, i) in events]
+
+
+def analyse_list_walk(name, body):
+    """`let mut current = header_map; while !current.is_null() { … &*current … current = header.next; … }`"""
+    m = re.search(r"let\s+mut\s+current\s*=\s*header_map\s*;", body)
+    w = re.search(r"while\s+!current\.is_null\(\)\s*\{", body)
+    if not m or not w or w.start() < m.start() or depth_at(body, w.start()) != 1:
+        raise Reject(f"{name}: not of the shape `let mut current = header_map; while !current.is_null() {{ … }}`")
+    ws, we = w.end() - 1, match_brace(body, w.end() - 1)
+    derefs = [d.start() for d in re.finditer(r"&\s*\*\s*current\b|\(\s*\*\s*current\s*\)|\*current\b", body)]
+    if not derefs or any(not (ws < d < we) for d in derefs):
+        raise Reject(f"{name}: `current` is dereferenced outside the loop guarded by `!current.is_null()`")
+    if re.search(r"\*\s*header_map\b|header_map\s*\.", body):
+        raise Reject(f"{name}: `header_map` itself is dereferenced")
+    for a in re.finditer(r"\bcurrent\s*=(?!=)", body):
+        if a.start() > m.end() and not (ws < a.start() < we):
+            raise Reject(f"{name}: `current` is reassigned outside the loop")
+    return [("guard", 0), ("deref", 0)]
+
+
+NEGATIVE = [
+    ("conditional return inside the check", ["p"], "{ if p.is_null() { if verbose() { return null(); } } let x = unsafe { &*p }; }"),
+    ("check nested under another condition", ["p"], "{ if cfg.strict { if p.is_null() { return null(); } } let x = unsafe { &*p }; }"),
+    ("block without return", ["p"], "{ if p.is_null() { log(); } let x = unsafe { &*p }; }"),
+    ("check weakened by &&", ["p"], "{ if p.is_null() && strict { return null(); } let x = unsafe { &*p }; }"),
+    ("unknown use", ["p"], "{ if p.is_null() { return null(); } let x = unsafe { p.read() }; }"),
+]
+POSITIVE = [
+    (["p"], "{ if p.is_null() { return null(); } let x = unsafe { &*p }; }", [("guard", 0), ("deref", 0)]),
+    (["p"], "{ let x = unsafe { &*p }; if p.is_null() { return null(); } }", [("deref", 0), ("guard", 0)]),   # extracted; rejected by `decide`
+    (["a", "b"], "{ if a.is_null() { return; } let r = unsafe { &mut *a }; let c = if b.is_null() { &d } else { unsafe { &*b } }; }",
+     [("guard", 0), ("deref", 0), ("helper", 1), ("derefElse", 1)]),
+    (["self.data"], "{ if self.data.is_null() || self.len == 0 { return Vec::new(); } let b = unsafe { std::slice::from_raw_parts(self.data, self.len) }; }",
+     [("guard", 0), ("deref", 0)]),
+]
+
+
+def selftest(fail):
+    for what, nullable, body in NEGATIVE:
+        try:
+            ev = analyse("selftest", nullable, body)
+        except Reject:
+            continue
+        fail(f"w8_ffi self-test: the extractor accepts a weakened null check ({what}): {ev}")
+    for nullable, body, want in POSITIVE:
+        try:
+            ev = analyse("selftest", nullable, body)
+        except Reject as e:
+            fail(f"w8_ffi self-test: a well-formed function is rejected: {e}")
+        if ev != want:
+            fail(f"w8_ffi self-test: {body!r} gives {ev}, expected {want}")
+
+
+def fn_body(src, m_end):
+    b = src.find("{", m_end)
+    return src[b:match_brace(src, b) + 1]
 
 
 def extract(read, fail, lean_str, lean_list):
+    selftest(fail)
     entries = []
-    for rel in FILES:
-        src = strip_comments(read(rel))
-        for m in re.finditer(r"pub\s+(?:unsafe\s+)?extern\s+\"C\"\s+fn\s+(\w+)\s*\(", src):
-            name = m.group(1)
-            # parameter list
-            depth, i = 0, m.end() - 1
-            while i < len(src):
-                if src[i] == "(":
-                    depth += 1
-                elif src[i] == ")":
-                    depth -= 1
-                    if depth == 0:
-                        break
-                i += 1
-            params = split_params(src[m.end():i])
-            b = src.find("{", i)
-            body = src[b:match_brace(src, b) + 1]
-            nullable, evs = analyse(name, params, body, fail)
-            entries.append((name, nullable, evs))
-    names = [e[0] for e in entries]
-    if len(names) < 20 or len(set(names)) != len(names):
-        fail(f"expected at least 20 distinct extern \"C\" functions, found {len(names)}")
-    # the two helpers: a null check must dominate the dereference
-    h = strip_comments(read("src/ffi_helpers.rs"))
-    m = re.search(r"pub fn c_char_to_str\(ptr: \*const c_char\)[^{]*\{", h)
-    if not m:
-        fail("ffi_helpers.rs: c_char_to_str not found")
-    body = h[m.end() - 1:match_brace(h, m.end() - 1) + 1]
-    nullable, evs = analyse("c_char_to_str", [("ptr", "*const c_char")], body, fail)
-    entries.append(("c_char_to_str", nullable, evs))
-    hf = strip_comments(read("src/http/ffi.rs"))
-    m = re.search(r"pub fn header_map_to_http_headers\(header_map: \*const HeaderMap\)[^{]*\{", hf)
-    if not m:
-        fail("http/ffi.rs: header_map_to_http_headers not found")
-    body = hf[m.end() - 1:match_brace(hf, m.end() - 1) + 1]
-    # the list walk: `let mut current = header_map; while !current.is_null() { let header = unsafe { &*current }; current = header.next; … }`
-    if not re.search(r"let\s+mut\s+current\s*=\s*header_map\s*;\s*while\s+!current\.is_null\(\)\s*\{[^}]*&\*current", body, re.S):
-        fail("http/ffi.rs: header_map_to_http_headers no longer has the shape `while !current.is_null() { … &*current … }`")
-    if len(re.findall(r"&\s*\*\s*current\b", body)) != 1 or re.search(r"\*\s*header_map\b", body):
-        fail("http/ffi.rs: header_map_to_http_headers dereferences outside the guarded loop")
-    entries.append(("header_map_to_http_headers", ["header_map"], [("guard", 0), ("deref", 0)]))
-    bf = strip_comments(read("src/filter/buffer.rs"))
-    for fn in ("to_vec", "into_vec"):
-        m = re.search(r"pub fn " + fn + r"\((?:&self|self)\)[^{]*\{", bf)
+    try:
+        for rel in FILES:
+            src = strip_comments(read(rel))
+            for m in re.finditer(r"pub\s+(?:unsafe\s+)?extern\s+\"C\"\s+fn\s+(\w+)\s*\(", src):
+                name = m.group(1)
+                depth, i = 0, m.end() - 1
+                while i < len(src):
+                    if src[i] == "(":
+                        depth += 1
+                    elif src[i] == ")":
+                        depth -= 1
+                        if depth == 0:
+                            break
+                    i += 1
+                params = split_params(src[m.end():i])
+                nullable = [n for (n, ty) in params if ty.startswith("*const") or ty.startswith("*mut") or ty == "Buffer"]
+                entries.append((name, nullable, analyse(name, nullable, fn_body(src, i))))
+        n_extern = len(entries)
+        names = [e[0] for e in entries]
+        if n_extern < 20 or len(set(names)) != n_extern:
+            fail(f"expected at least 20 distinct extern \"C\" functions, found {n_extern}")
+        # the helpers, analysed from their source like the entry points
+        h = strip_comments(read("src/ffi_helpers.rs"))
+        m = re.search(r"pub fn c_char_to_str\(ptr: \*const c_char\)[^{]*", h)
         if not m:
-            fail(f"buffer.rs: Buffer::{fn} not found")
-        body = bf[m.end() - 1:match_brace(bf, m.end() - 1) + 1]
-        g = re.search(r"if self\.data\.is_null\(\) \|\| self\.len == 0 \{\s*return Vec::new\(\);", body)
-        d = re.search(r"from_raw_parts(?:_mut)?\(self\.data, self\.len\)", body)
-        if not g or not d or g.start() > d.start():
-            fail(f"buffer.rs: Buffer::{fn}: the null/empty check no longer dominates from_raw_parts")
-        entries.append((f"Buffer::{fn}", ["self.data"], [("guard", 0), ("deref", 0)]))
+            fail("ffi_helpers.rs: c_char_to_str not found")
+        entries.append(("c_char_to_str", ["ptr"], analyse("c_char_to_str", ["ptr"], fn_body(h, m.end() - 1))))
+        hf = strip_comments(read("src/http/ffi.rs"))
+        m = re.search(r"pub fn header_map_to_http_headers\(header_map: \*const HeaderMap\)[^{]*", hf)
+        if not m:
+            fail("http/ffi.rs: header_map_to_http_headers not found")
+        entries.append(("header_map_to_http_headers", ["header_map"], analyse_list_walk("header_map_to_http_headers", fn_body(hf, m.end() - 1))))
+        bf = strip_comments(read("src/filter/buffer.rs"))
+        for fn in ("to_vec", "into_vec"):
+            m = re.search(r"pub fn " + fn + r"\((?:&self|self)\)[^{]*", bf)
+            if not m:
+                fail(f"buffer.rs: Buffer::{fn} not found")
+            entries.append((f"Buffer::{fn}", ["self.data"], analyse(f"Buffer::{fn}", ["self.data"], fn_body(bf, m.end() - 1))))
+    except Reject as e:
+        fail(str(e))
     lines = ["-- extern \"C\" null-check structure (tools/consts.d/w8_ffi.py): (name, nullable parameters, events in source order)",
              "-- event codes: 0 = guard, 1 = deref, 2 = derefElse, 3 = helper (numbers, so that `decide` never has to evaluate a String)",
+             f"-- {n_extern} extern \"C\" functions + {len(entries) - n_extern} helpers",
+             f"def ffiNullTableSize : Nat := {len(entries)}",
              "def ffiNullTable : List (String × List String × List (Nat × Nat)) := ["]
     rows = []
     for (name, nullable, evs) in entries:
